@@ -832,34 +832,45 @@ def r3_refusal_paths(ctx):
     cb = [s for s in ast.walk(fn) if isinstance(s, ast.Try) and any(A.call_target(c) == (None, 'callback') for c in A.calls_in(s))]
     ok = len(cb) == 1 and any(h.type is None or (path_of(h.type) or '') == 'Exception' for h in cb[0].handlers)
     yield Ob('x12n_document:x12n_document the caller\'s callback is fenced', ok, ctx.floc(fn), '' if ok else 'callback fence changed')
-    # node None fallback
-    ok = False
-    for n in ast.walk(fn):
-        if isinstance(n, ast.Assign) and norm(n) == 'node = orig_node':
-            for t, pol in A.path_condition(n, fn):
-                try:
-                    if bool(A.ev(t, {'node': None})) == pol and bool(A.ev(t, {'node': 1})) != pol:
-                        ok = True
-                except (A.NotClosed, TypeError):
-                    pass
-    if not ok:
-        # the other form: the current node (what is validated and searched from next) only takes the walker's result when
-        # that is not None - every store of a possibly-None result into it stands under `<result> is not None`
-        cur = A.current_node_var(fn)
-        loops_ = [l_ for l_ in ast.walk(fn) if isinstance(l_, ast.For) and path_of(l_.iter) == 'src']
-        if cur and len(loops_) == 1:
-            stores = [n for n in ast.walk(loops_[0]) if isinstance(n, ast.Assign) and any(path_of(t_) == cur for t_ in n.targets) and isinstance(n.value, ast.Name)]
-            good = 0
-            for n in stores:
-                res = n.value.id
-                conds = A.path_condition(n, fn)
-                try:
-                    if any(bool(A.ev(t, {res: None})) != pol and bool(A.ev(t, {res: 1})) == pol for t, pol in conds if A.free_paths(t) <= {res}):
-                        good += 1
-                except (A.NotClosed, TypeError):
-                    pass
-            ok = bool(stores) and good == len(stores)
-    yield Ob('x12n_document:x12n_document segment not found falls back to the previous node', ok, ctx.floc(fn), '' if ok else 'fallback changed')
+    # node None fallback, decided by constant propagation through one iteration of the segment loop for a body segment the
+    # walker does not find (walk() answers None): at the end of the iteration the current node is the one from before, and
+    # nothing was validated against None
+    from ..absint import explore as _ex7
+    from ..cfg import CFG as _CFG7
+    cur = A.current_node_var(fn) or 'node'
+    loops_ = [l_ for l_ in ast.walk(fn) if isinstance(l_, ast.For) and path_of(l_.iter) == 'src' and isinstance(l_.target, ast.Name)]
+    if len(loops_) != 1:
+        raise AnalysisError('x12n_document: the segment loop was not found')
+    synth = ast.parse('def _one_iteration():\n    for _once in (0,):\n        pass').body[0]
+    synth.body[0].body = list(loops_[0].body)
+    ast.fix_missing_locations(synth)
+    g7 = _CFG7(synth)
+    segm = A.Model('body segment', get_seg_id=lambda: 'XYZ', get_value=lambda rd: 'v')
+    seen7 = {'final': [], 'validated_none': False}
+
+    def on7(nd, env):
+        if nd is g7.exit:
+            seen7['final'].append(env.get(cur, 'undetermined'))
+        if nd.ast is not None:
+            for c in g7.walk_exprs(nd):
+                if isinstance(c, ast.Call) and isinstance(c.func, ast.Attribute) and c.func.attr == 'is_valid' and path_of(c.func.value) == cur \
+                        and cur in env and env[cur] is None:
+                    seen7['validated_none'] = True
+    def _not_found():
+        return (None, (), ())
+    _not_found._ignores_args = True
+    try:
+        _ex7(g7, {loops_[0].target.id: segm, cur: 'PREVIOUS NODE'}, funcs={'walker.walk': _not_found},
+             on_node=on7, unknown='both')
+    except RuntimeError as e:
+        raise AnalysisError('x12n_document: %s' % e)
+    if not seen7['final']:
+        raise AnalysisError('x12n_document: the end of the iteration is not reached for a segment that is not found')
+    badf = sorted({str(v) for v in seen7['final'] if v != 'PREVIOUS NODE'})
+    ok = not badf and not seen7['validated_none']
+    yield Ob('x12n_document:x12n_document segment not found falls back to the previous node', ok, ctx.floc(fn),
+             '' if ok else ('after a segment the walker does not find, %s is %s instead of the node from before' % (cur, ', '.join(badf)) if badf
+                            else 'the segment is validated against None'))
 
 
 def r4_shared_recogniser_total(ctx):
@@ -870,7 +881,17 @@ def r4_shared_recogniser_total(ctx):
         yield o
 
 
+def r5_shared_tokenizer(ctx):
+    """the tokenizer underneath every entry point never fails on a well-formed start: the buffer that is tested for the
+    terminator is the buffer that is split (C01.R3, shared) - a split of something else can come back with one part and
+    the unpack raises ValueError out of validation"""
+    from . import c01
+    for o in c01.r3_tokenizer_exits(ctx):
+        yield o
+
+
 RULES = [
+    Rule('C07.R5', 'shared with C01.R3: tokenizer buffer discipline (what is tested is what is split)', r5_shared_tokenizer, floor=6),
     Rule('C07.R1', 'explicit raises escaping the entry points are all classified (documented / data-discharged / guarded)', r1_explicit_raises, floor=33),
     Rule('C07.R1b', 'segment-qualified designator literals are used on segments of that id', r1b_designators, floor=45),
     Rule('C07.R2', 'implicit raisers: stack, token index, int(), optional current nodes, child lookups, self-calls, unbound locals', r2_implicit, floor=30),
